@@ -147,7 +147,10 @@ def unpack_to_pipe(
             read_start_time = timer()
             arr = af[data_key][field][:]  # read + decompression happens here
             read_time += timer() - read_start_time
-            pipe.write(arr)
+            # the file may store the column as a strided view (shared block,
+            # Fortran order, ...): the buffer protocol refuses those, so emit
+            # the elements' bytes in C order (no copy when already contiguous)
+            pipe.write(np.ascontiguousarray(arr))
             del arr
             gc.collect()
         nbytes_tot += N * field_width
